@@ -284,6 +284,8 @@ static void gen_rec(struct puni *u, struct rng *r, struct mrec *m)
 	else
 		m->maxlen = (uint8_t)(m->len + rndn(r, (uint32_t)(full - m->len + 1)));
 	m->asn = u->asns[rndn(r, 6)];
+	if (rndp(r, 1, 6)) /* AS numbers that agree in their low bits and differ in one high bit (or the other way round) */
+		m->asn ^= 1u << (rndp(r, 2, 3) ? 24 + rndn(r, 8) : rndn(r, 32));
 	m->src = (uint8_t)rndn(r, 3);
 }
 
